@@ -50,6 +50,17 @@ class Body:
         self._dom = None
         self._pdom = None
         self._defs = None
+        self.infeasible = set()   # (bb, target) edges pruned as infeasible (NeverErr / constant switch)
+
+    def reset(self):
+        self._succ = {}
+        self._pred = None
+        self._normal = None
+        self._dom = None
+        self._pdom = None
+        self._defs = None
+        if hasattr(self, '_reach_ret'):
+            del self._reach_ret
 
     # ------------------------------------------------------------------ CFG
     def term(self, i):
@@ -84,7 +95,7 @@ class Body:
         # dedupe preserving order
         seen = []
         for x in out:
-            if x not in seen:
+            if x not in seen and (i, x) not in self.infeasible:
                 seen.append(x)
         self._succ[key] = seen
         return seen
